@@ -76,6 +76,10 @@ func runC10(e *core.Env) {
 			text = c10Stretch(r, text) // faulty lines far wider than a terminal, the fault far to the right
 			rules += "+stretched"
 		}
+		if r.Chance(1, 10) {
+			text = c10EightBit(r, text) // a run of bytes of an 8-bit encoding in front of the fault: one character each, wherever the line is shown
+			rules += "+8bit"
+		}
 		e.Begin(i, []byte(text))
 		c10Check(e, r, i, text, rules, single, m, d)
 		e.End(i)
@@ -103,6 +107,37 @@ func c10Stretch(r *core.Rand, text string) string {
 		l = l[:a+b] + pad + l[a+b:]
 	} else {
 		l = l + pad + r.Pick("x", "(8h", "-", "?")
+	}
+	ls[rec.BadLine].Text = l
+	var sb strings.Builder
+	for _, x := range ls {
+		sb.WriteString(x.Text)
+		sb.WriteString(x.Ending)
+	}
+	return sb.String()
+}
+
+// c10EightBit puts two to four neighbouring bytes that are not UTF-8 (letters of an 8-bit encoding, a truncated multi-byte
+// character) right behind the indentation of the first faulty line, or at its end.
+func c10EightBit(r *core.Rand, text string) string {
+	rec := ref.Recognise(text)
+	if rec.Verdict != ref.NonConforming {
+		return text
+	}
+	ls := ref.SplitLines(text)
+	if rec.BadLine < 0 || rec.BadLine >= len(ls) {
+		return text
+	}
+	l := ls[rec.BadLine].Text
+	a := 0
+	for a < len(l) && (l[a] == ' ' || l[a] == '\t') {
+		a++
+	}
+	run := r.Pick("\xfc\xdf", "\xe2\x82", "\xfc\xdf\xe4\xf6", "\xff\xfe\xfd", "\xc3\xc3")
+	if r.Bool() {
+		l = l[:a] + run + l[a:]
+	} else {
+		l = l + " Gr" + run + "e"
 	}
 	ls[rec.BadLine].Text = l
 	var sb strings.Builder
